@@ -19,7 +19,7 @@ EntriesS == <<"inverse", "inverse_continuing", "inverse_5dof", "inverse_continui
 DofS     == <<6, 5>>
 PoseS    == <<"generic", "j5-zero", "j5-pi", "stretched", "on-j1-axis", "unreachable", "nan", "inf", "j5-tiny", "near-j1-axis", "barely-out">>
 PrevS    == <<"near", "far", "centered", "off-limits">>
-LimS     == <<"none", "wide", "narrow", "wrap", "some-equal", "excluding", "beyond-turn", "sliver">>
+LimS     == <<"none", "wide", "narrow", "wrap", "some-equal", "excluding", "beyond-turn", "sliver", "gap">>
 GeomS    == <<"plain", "b-nonzero", "a2-positive", "a2-negative", "a1-negative", "a1-zero", "offsets-only", "c4-zero", "c1-zero">>
 OffS     == <<"zero", "quarter", "random">>
 W16S     == <<0, 4, 8, 12, 16, 5>>
@@ -30,13 +30,13 @@ VARIABLES en, df, po, pr, li, gx
 vars == <<en, df, po, pr, li, gx>>
 
 IsCont(e) == e \in {2, 4}
-Init == /\ en \in 1..4 /\ df \in 1..2 /\ po \in 1..11 /\ li \in 1..8
+Init == /\ en \in 1..4 /\ df \in 1..2 /\ po \in 1..11 /\ li \in 1..9
         /\ pr \in (IF IsCont(en) THEN 1..4 ELSE {1})
         /\ gx \in (IF Thorough THEN 1..9 ELSE {0})
 Next == UNCHANGED vars
 Spec == Init /\ [][Next]_vars
 
-Id == ((((en - 1) * 2 + (df - 1)) * 11 + (po - 1)) * 4 + (pr - 1)) * 8 + (li - 1)
+Id == ((((en - 1) * 2 + (df - 1)) * 11 + (po - 1)) * 4 + (pr - 1)) * 9 + (li - 1)
 Five == en \in {3, 4} \/ df = 2
 
 Emit ==
